@@ -10,7 +10,7 @@ import (
 
 // ProcStep is one step of a processing-time window scenario.
 type ProcStep struct {
-	A   string `json:"a"`   // add | adv | fire | sleep
+	A   string `json:"a"`   // add | adv | fire | sleep | mtrig
 	ID  int64  `json:"id"`  // add: row id (sequential from 1)
 	Gap int64  `json:"gap"` // sleep: microseconds
 }
@@ -194,6 +194,10 @@ func RunProc(sc ProcScenario) (evs []Ev, inconclusive string) {
 			if !in.WaitFor(T, func() bool { return in.C("tw.ptrigdone") > b }) {
 				return in.Events(), "trigger did not complete"
 			}
+		case "mtrig":
+			// TriggerWindow(): the current interval is reported now (the scenario hands in no further row before the interval is over);
+			// the intervals after it are reported as usual - complete, each once
+			s.TriggerWindow()
 		case "sleep":
 			t0 := time.Now()
 			time.Sleep(time.Duration(st.Gap) * time.Microsecond)
